@@ -565,11 +565,20 @@ def oracle_c16(line, m, impl, model):
 def oracle_c17(line, m, impl, model):
     if not impl_ok(impl, ["lista_json", "list_json", "markers_all"]):
         return "list_all panicked"
+    marks = parse_markers(impl["markers_all"])
+    got = [(a, b, st) for a, b, _, st in marks]
+    # for every source (Properties/C17.v, C17_list_all_regions holds for all well-formed sources):
+    # items in source order, Ready items identical to the plain list
+    if [x[0] for x in got] != sorted(x[0] for x in got):
+        return "list_all items are not in source order"
+    la = parse_json_items(impl["lista_json"])
+    l = parse_json_items(impl["list_json"])
+    if [i for i in la if i["current_status"] == "Ready"] != l:
+        return "Ready items of list_all differ from the plain list"
     c = parse_dcase(line)
     r = ref_of(c)
     if r.abstain or m.get("mutated") or m.get("stream") == "exhaustive" or not in_list_domain(c, r):
         return None
-    marks = parse_markers(impl["markers_all"])
     ready = sorted(p for n, parts, nested in r.ready if not nested for p in parts)
     pend = []
     for n, parts, in_ready, in_pending in r.pending:
@@ -580,17 +589,62 @@ def oracle_c17(line, m, impl, model):
                 continue
             pend.append(p)
     want = sorted([(a, b, "R") for a, b in ready] + [(a, b, "P") for a, b in pend])
-    got = [(a, b, st) for a, b, _, st in marks]
     # ready unwrap parts may have grown by absorbing children on wrapper lines; compare loosely there
     if m.get("strict", True) and got != want:
         return f"list_all regions {got[:8]} differ from Ready + outstanding Pending {want[:8]}"
-    if [x[0] for x in got] != sorted(x[0] for x in got):
-        return "list_all items are not in source order"
-    la = parse_json_items(impl["lista_json"])
-    l = parse_json_items(impl["list_json"])
-    if [i for i in la if i["current_status"] == "Ready"] != l:
-        return "Ready items of list_all differ from the plain list"
     return None
+
+
+def wrapper_tag_cases(rng, n, prefix="wt"):
+    """ready unwrap-block elements with the tags of other (pending / ready) elements ON their wrapper
+    lines (outside the C15 space: only the clauses proved for every source are applied to them)"""
+    cases, meta = [], {}
+    e, f = G.EXPIRED, G.FUTURE
+    for i in range(n):
+        ds, de = rng.choice(G.DELIMS)
+        def tag(body):
+            return ds + body + de
+        kinds = {"P": (f"tl {f}", "/tl"), "R": (f"tl {e}", "/tl"), "M": ('rm name="zz"', "/rm"), "X": ('rm name="x"', "/rm")}
+        ind = rng.choice(["", "  ", "\t"])
+        k1 = rng.choice("PPPMRX")
+        k2 = rng.choice("PPMRX")
+        o1, c1 = kinds[k1]
+        o2, c2 = kinds[k2]
+        lines = [rng.choice(["", "a", "fn main() {"])]
+        lines.append(ind + tag(rng.choice([f"tl {e} unwrap-block", 'rm name="x" unwrap-block'])))
+        shape = rng.randrange(6)
+        u_close = None
+        # opening wrapper line
+        if shape in (0, 1, 4):
+            lines.append(ind + "if (c) { " + tag(o1))
+            lines.append(ind + "  legacy();")
+            lines.append(ind + "  " + tag(c1))
+        elif shape == 2:
+            lines.append(ind + tag(o1) + " if (c) {")
+            lines.append(ind + "  legacy();")
+            lines.append(ind + "  " + tag(c1) + " tail();")
+        else:
+            lines.append(ind + "{")
+        for _ in range(rng.randint(0, 2)):
+            lines.append(ind + "  run();")
+        # closing wrapper line
+        if shape in (1, 3, 5):
+            lines.append(ind + "  " + tag(o2))
+            lines.append(ind + "  more();")
+            lines.append(ind + tag(c2) + " }")
+        elif shape == 4:
+            lines.append(ind + "  " + tag(o2) + " x(); " + tag(c2))
+            lines.append(ind + "}")
+        else:
+            lines.append(ind + "}")
+        closer = "/tl" if "tl " in lines[1] else "/rm"
+        lines.append(ind + tag(closer))
+        lines.append(rng.choice(["", "b", "}"]))
+        src = "\n".join(lines) + rng.choice(["", "\n"])
+        cid = f"{prefix}{i}"
+        cases.append(G.dcase(cid, ds, de, src, G.Cfg(targets=("x",))))
+        meta[cid] = {"stream": "wrapper-tags", "strict": False}
+    return cases, meta
 
 
 # ------------------------------------------------------------------------------------------------
@@ -668,7 +722,7 @@ def gen_front(rng, tier, pairs=None, exh_len=None):
 def gen_docs(rng, tier, n_quick=2500, n_thorough=40000, **kw):
     n = n_quick if tier == "quick" else n_thorough
     ex = exhaustive_cases(rng, "x", [("<", ">"), ("|", "|")], 3 if tier == "quick" else 4)
-    return merge(corpus_cases(), ex, doc_cases(rng, n, "d", **kw))
+    return merge(corpus_cases(), ex, doc_cases(rng, n, "d", **kw), wrapper_tag_cases(rng, 300 if tier == "quick" else 3000, "wtg"))
 
 
 TAG_VALUES = ["", "v", "a b", "x=y", "it's", 'say "hi"', "skip", "unwrap-block", "a\nb", "<", "/* <", "to", "あ", "  ", "name=x skip"]
@@ -1812,7 +1866,8 @@ _P = {
     "C14": mk(lambda rng, t: merge(gen_docs(rng, t, p_mut=0.3), gen_c11(rng, "quick")), DOC_STAGES_CLEAN, oracle_c14, "whitespace confined", RULE_DOC),
     "C15": mk(lambda rng, t: gen_docs(rng, t, p_mut=0.1), ["markers", "list_json", "list_pretty", "clean"], oracle_c15, "list = clean regions", RULE_DOC),
     "C16": mk(lambda rng, t: gen_docs(rng, t, p_mut=0.2), ["list_json", "list_pretty", "lista_json", "lista_pretty"], oracle_c16, "list rendering", RULE_DOC),
-    "C17": mk(lambda rng, t: gen_docs(rng, t, p_mut=0.1, kinds=["ready_tl", "pending_tl", "pending_tl", "pending_rm", "ready_rm", "skip"]),
+    "C17": mk(lambda rng, t: merge(gen_docs(rng, t, p_mut=0.1, kinds=["ready_tl", "pending_tl", "pending_tl", "pending_rm", "ready_rm", "skip"]),
+                                   wrapper_tag_cases(rng, 300 if t == "quick" else 3000)),
               ["markers_all", "markers", "lista_json", "list_json"], oracle_c17, "list_all merge", RULE_DOC),
     "C18": mk(gen_c18, ["tok", "tag", "tree", "markers", "clean", "lista_json"], oracle_c18, "spelling independence", "pairs: one abstract document in the placeholder spelling and in a spelling from the pool (13 delimiter pairs x 4 tag-name pairs)"),
     "C19": mk(gen_c19, ["clean"], oracle_c19, "idempotence and histories", "AST documents with expiry times from an ordered set; chains of 1..4 configurations", post=post_c19),
